@@ -207,11 +207,16 @@ from harness.drivers.c08 import PidF
 from coba.pipes.multiprocessing import Multiprocessor
 if __name__ == '__main__':
     P, Max, N, bad = json.loads(sys.argv[1])
+    m = Multiprocessor(PidF(bad), P, Max); got2 = []; exc2 = None
     try:
-        got = list(Multiprocessor(PidF(bad), P, Max).filter(list(range(1, N + 1)))); exc = None
+        got = list(m.filter(list(range(1, N + 1)))); exc = None
     except Exception as e:
         got = []; exc = type(e).__name__ + ':' + str(e)
-    print(json.dumps(dict(got=got, exc=exc)))
+    try:
+        got2 = list(m.filter(list(range(101, 101 + N))))     # the same object, a second stream: nothing of the first call may linger
+    except Exception as e:
+        exc2 = type(e).__name__ + ':' + str(e)
+    print(json.dumps(dict(got=got, exc=exc, got2=got2, exc2=exc2)))
 """ % os.path.dirname(os.path.dirname(os.path.dirname(os.path.abspath(__file__))))
     script = os.path.join(ctx.scratch, "real_spawn.py"); open(script, "w").write(code)
     for (P, Max, N, bad) in real:
@@ -231,6 +236,12 @@ if __name__ == '__main__':
         else:
             if d["exc"] or items != list(range(1, N + 1)): ctx.violation("real-outputs", "outputs %s exc %s" % (items, d["exc"]), dict(P=P, Max=Max, N=N, bad=bad))
             if Max and per and max(per.values()) > Max: ctx.violation("real-maxtasks", "a worker handled %d > %d items" % (max(per.values()), Max), dict(P=P, Max=Max, N=N, per=per))
+        items2 = sorted(x for _, x in d["got2"]); per2 = {}
+        for pid, x in d["got2"]: per2[pid] = per2.get(pid, 0) + 1
+        if d["exc2"] or items2 != list(range(101, 101 + N)):
+            ctx.violation("real-second-call", "a second filter() call on the same Multiprocessor gave outputs %s exc %s (the first call: %s)" % (items2, d["exc2"], "raised" if d["exc"] else "completed"), dict(P=P, Max=Max, N=N, bad=bad))
+        elif Max and per2 and max(per2.values()) > Max:
+            ctx.violation("real-maxtasks", "second call: a worker handled %d > %d items" % (max(per2.values()), Max), dict(P=P, Max=Max, N=N, per=per2))
     ctx.extra["real_spawn_runs"] = len(real)
     ctx.assumptions += ["virtual layer: one scheduling point per queue put/get, event wait and join; code between two points is atomic (CPython GIL granularity for the shared counters, as argued in DESIGN.md C08)",
                         "non-zero worker exit codes and Ctrl-C are outside the model"]
